@@ -37,11 +37,13 @@ def counts(tier: str):
 
 def base_model(rng, nn: int, nvar: int) -> dict:
     m = {'neighbors': {}}
-    for i in range(nn):
+    for i in sorted(rng.sample([0, 1, 2], nn)):  # not always from the first: a later reload can add a neighbor in front of the running ones
         routes = {}
         for p in rng.sample(RW.CONF_PREFIXES + ['192.0.6.0/24', '192.0.7.0/24'], rng.randint(0, 5)):
             routes[p] = {'nh': rng.choice(['self', '10.0.0.9']), 'v': rng.randint(0, nvar - 1)}
         m['neighbors'][str(i)] = {'idx': i, 'hold': rng.choice([30, 90]), 'routes': routes, 'aro': rng.chance(0.75)}  # aro: adj-rib-out enabled
+        # ari: adj-rib-in kept (the default) or not; passive: exabgp waits for the peer to connect (and does nothing for it while it is away)
+        m['neighbors'][str(i)].update({'ari': rng.chance(0.75), 'passive': rng.chance(0.25)})
     return m
 
 
@@ -93,6 +95,8 @@ def apply_edits(model: dict, edits: list[dict]) -> dict:
             continue
         if k == 'add-route':
             nb['routes'][e['p']] = {'nh': e['nh'], 'v': e['v']}
+        elif k == 'del-route-p':
+            nb['routes'].pop(e['p'], None)
         elif k == 'del-route' and nb['routes']:
             key = sorted(nb['routes'])[e['k'] % len(nb['routes'])]
             del nb['routes'][key]
@@ -114,9 +118,14 @@ def apply_edits(model: dict, edits: list[dict]) -> dict:
     return m
 
 
-def model_text(model: dict, variants) -> str:
+def model_text(model: dict, variants, order: int = 0) -> str:
     confs = []
-    for key in sorted(model['neighbors']):
+    keys = sorted(model['neighbors'])
+    if order:
+        from exasim.choice import Rng
+
+        Rng(order).shuffle(keys)  # the order of the neighbor blocks in the file is the operator's
+    for key in keys:
         nb = model['neighbors'][key]
         i = nb['idx']
         static = [RW.route_text({'p': p, 'nh': r['nh'], 'v': r['v']}, variants) for p, r in sorted(nb['routes'].items())]
@@ -126,6 +135,10 @@ def model_text(model: dict, variants) -> str:
                 'families': [(1, 1)] + ([(2, 1)] if nb.get('v6') else []), 'adj-rib-out': nb.get('aro', True), 'api': {'processes': ['h1']}, 'static': static,
             }
         )  # fmt: skip
+        if not nb.get('ari', True):
+            confs[-1]['adj-rib-in'] = False
+        if nb.get('passive'):
+            confs[-1]['passive'] = True
     return config_text([{'name': 'h1'}] + ([{'name': 'h2'}] if model.get('h2') else []), confs)
 
 
@@ -207,11 +220,25 @@ def generate(rng, tier: str, index: int) -> dict:
         steps.append(
             {
                 'edits': edits, 'fault': fault, 'via': rng.choice(['signal', 'signal', 'api']), 'api_ops': api_ops, 'post_ops': post_ops,
+                'order': rng.choice([0, 0, rng.randint(1, 1 << 30)]),
                 'sessions': {str(i): rng.choice(['up', 'up', 'up', 'down', 'die', 'opensent']) for i in range(3)}, 'gap': rng.choice([0.0, 0.05, 1.0]),
             }
         )  # fmt: skip
         if fault is None:
             cur = apply_edits(cur, edits)
+    if rng.chance(0.12) and model['neighbors']:
+        # a configuration that only lives between two reloads, both taken while the session is away: the first changes the
+        # neighbor itself (hold time) and adds a route, the second takes the route out again
+        key = rng.choice(sorted(model['neighbors']))
+        if rng.chance(0.6):
+            model['neighbors'][key]['passive'] = True  # a peer exabgp does nothing for while its session is away
+        p = '192.0.10.0/24'
+        down = {str(i): ('down' if str(i) == key else 'up') for i in range(3)}
+        motif = [
+            {'edits': [{'e': 'chg-hold', 'n': key}, {'e': 'add-route', 'n': key, 'p': p, 'nh': '10.0.0.9', 'v': 0}], 'fault': None, 'via': 'signal', 'api_ops': [], 'post_ops': [], 'order': 0, 'sessions': down, 'gap': 0.05},
+            {'edits': [{'e': 'del-route-p', 'n': key, 'p': p}], 'fault': None, 'via': 'signal', 'api_ops': [], 'post_ops': [], 'order': 0, 'sessions': down, 'gap': 0.05},
+        ]
+        steps = motif + [st_ for st_ in steps if st_['fault'] is not None][:1]
     return {'micro_seed': rng.randint(1, 1 << 48), 'knobs': knobs(rng), 'variants': variants, 'model': model, 'steps': steps}
 
 
@@ -241,6 +268,8 @@ def grid(tier: str):
 
 
 def execute(plan: dict) -> dict:
+    plan = jclone(plan)
+    plan.setdefault('knobs', {}).update({'listen_ip': LOCAL, 'listen_port': 1790})
     w = make_world(plan)
     variants = plan['variants']
     model = jclone(plan['model'])
@@ -408,7 +437,7 @@ def execute(plan: dict) -> dict:
             if now >= st['t']:
                 step = plan['steps'][st['step']]
                 new_model = apply_edits(model, step['edits'])
-                text = model_text(new_model, variants)
+                text = model_text(new_model, variants, step.get('order', 0))
                 fsfault = None
                 if step['fault'] and not st.get('retry'):
                     text, fsfault = break_text(text, step['fault'])
@@ -590,6 +619,15 @@ def execute(plan: dict) -> dict:
                 violations.append(viol('C17/failed-reload-emitted-update', f'an UPDATE ({len(body)} bytes) was sent to {RW.PEER_IPS[idx] if idx is not None else c} at t={t:.2f} as a consequence of a reload that failed at t={b["mono"]:.2f}'))
                 return
 
+    def knock() -> None:
+        # the peer of a passive neighbor connects in, and keeps trying like a real one - unless this step wants the session down
+        for key, nb in model['neighbors'].items():
+            i = nb['idx']
+            if nb.get('passive') and i not in st['down'] and speakers[i].current() is None and speakers[i].accept_mode == 'accept':
+                speakers[i].connect_in(LOCAL, 1790)
+        w.after(2.0, knock)
+
+    w.at(0.5, knock)
     w.at(1.0, driver)
     w.run(until=2500.0)
     nontrivial = probes['reloads_failed'] + probes['sessions_down_at_reload'] + probes['sessions_died_during_reload'] + probes['api_routes_at_reload'] > 0
